@@ -174,7 +174,9 @@ CLAIMED["C19"] = dict(
     text="Bounded: seeded single-block riscv functions (li/add/mul/mv, values with several uses, pre-assigned registers, pools of 1/2/3/5 registers and an "
          "infinite-register run) are allocated by the real RISC-V allocator and the allocated code is executed on a register machine: every operand "
          "must still be in its register when read (no two simultaneously live values share a register), values in `zero` must be the constant zero, "
-         "pre-assigned registers are kept, results equal the SSA evaluation. Additionally every RegisterStack method (push, pop, reserve, unreserve, "
+         "pre-assigned registers are kept, results equal the SSA evaluation. A second family allocates single-block functions with one riscv_scf.for (static / dynamic "
+         "step, 0-2 loop-carried values, ub / step / outer values read in the body or after the loop) through the riscv-allocate-registers pass and executes them "
+         "concretely at SSA level and at register level (known finding: the loop-carried same-register constraint ignores live ranges). Additionally every RegisterStack method (push, pop, reserve, unreserve, "
          "include, exclude) is under a discharged contract (pyvc + z3): the pool is a duplicate-free stack of allocatable non-reserved registers, a popped "
          "register is no longer available, infinite registers get strictly increasing indices; ValueAllocator.allocate_value / free_value are under contract on top "
          "of it (an unallocated value gets a register popped from the pool - hence held by no live value -, an allocated one is left alone, free_value "
